@@ -191,11 +191,12 @@ func (x *Exec) fieldRead(st *State, sname, path string, t types.Type, ref string
 	case KSlice:
 		el := t.Underlying().(*types.Slice).Elem()
 		key := sname + "." + path
+		// slices stored in the heap are kept with offset 0 (rebased when stored)
 		arr := Select(x.heapGet(st, key+".arr", arrSort(arrSort(e.elemSort(el)))), ref)
-		off := Select(x.heapGet(st, key+".off", SArrI), ref)
 		ln := Select(x.heapGet(st, key+".len", SArrI), ref)
-		x.vc.Fact(And("(>= "+off+" 0)", "(>= "+ln+" 0)"))
-		return x.sliceV(t, arr, off, ln)
+		x.vc.Fact("(>= " + ln + " 0)")
+		x.vc.Fact("(<= " + ln + " 17592186044416)")
+		return x.sliceV(t, arr, "0", ln)
 	case KUnit:
 		return UnitV()
 	case KBool:
@@ -225,8 +226,14 @@ func (x *Exec) fieldWrite(st *State, sname, path string, t types.Type, ref strin
 		el := t.Underlying().(*types.Slice).Elem()
 		key := sname + "." + path
 		as := arrSort(arrSort(e.elemSort(el)))
-		x.heapSetAt(st, key+".arr", as, Store(x.heapGet(st, key+".arr", as), ref, v.F["arr"].S), ref)
-		x.heapSetAt(st, key+".off", SArrI, Store(x.heapGet(st, key+".off", SArrI), ref, v.F["off"].S), ref)
+		arr := v.F["arr"].S
+		if off := v.F["off"].S; off != "0" {
+			// rebase to offset 0 so that stored slices have canonical element terms
+			b := x.vc.Fresh("rebase", arrSort(e.elemSort(el)))
+			x.vc.Fact("(forall ((k Int)) (! (= (select " + b + " k) (select " + arr + " (+ " + off + " k))) :pattern ((select " + b + " k))))")
+			arr = b
+		}
+		x.heapSetAt(st, key+".arr", as, Store(x.heapGet(st, key+".arr", as), ref, arr), ref)
 		x.heapSetAt(st, key+".len", SArrI, Store(x.heapGet(st, key+".len", SArrI), ref, v.F["len"].S), ref)
 	case KUnit:
 	case KBool:
@@ -367,6 +374,7 @@ func (x *Exec) binary(e *ast.BinaryExpr, st *State) *Val {
 		}
 		s2 := st.Copy()
 		s2.Assume(guard)
+		n0 := len(s2.pc)
 		r := x.expr(e.Y, s2)
 		// adopt state changes made by rhs (merge under guard)
 		if x.stateChanged(st, s2) {
@@ -376,7 +384,11 @@ func (x *Exec) binary(e *ast.BinaryExpr, st *State) *Val {
 			m, _ := x.mergeStates([]*State{s2, s1}, nil)
 			*st = *m
 		} else {
-			// keep any assumptions that are independent of guard? no: drop
+			// assumptions made while evaluating the right operand (callee postconditions,
+			// no-panic continuations) hold whenever it was evaluated, i.e. under the guard
+			for _, p := range s2.pc[n0:] {
+				st.Assume(Implies(guard, p))
+			}
 		}
 		if e.Op == token.LAND {
 			return BoolV(And(l.S, r.S))
